@@ -13,11 +13,14 @@
     - every number reported by [get_info] (utility, both regrets, total regret) scales by [c] bit for
       bit under the decidable range check [infookb];
     - [truncate] and [distance] do not see the payoffs at all.
-    Not proved: the same for the solver's iterations (cancellation across iterations rules out a closed
-    a-priori range condition); that part of the clause stays with the real-number theorems and the check. *)
+    - (last section, [theories/ScaleSolveFloat.v]) the same for the solver itself: regret matching does not see the
+      unit, and a whole solve by the unsampled or the chance-sampled method returns the SAME strategies, the same
+      iteration count and bounds multiplied by [c] bit for bit, under a decidable checker that follows the UNSCALED run
+      only (cancellation across iterations rules out a closed a-priori range condition).  External sampling and the
+      softmax fallback are not covered. *)
 From Coq Require Import List ZArith Reals Floats Bool.
 From Flocq Require Import Core.
-From Cfr.theories Require Import Num FInst Tree Strat Eval TruncFloat EvalFloat ScaleFloat ScaleFloatBR.
+From Cfr.theories Require Import Num FInst Tree Strat Eval TruncFloat EvalFloat ScaleFloat ScaleFloatBR Solve SolveFloat ScaleSolveFloat.
 Import ListNotations.
 Local Open Scope R_scope.
 Local Notation float := PrimFloat.float.
@@ -66,9 +69,60 @@ Theorem C12_binary64_reported_numbers_scale_exactly :
   @si_regret FNum I' = (@si_regret FNum I * c)%float.
 Proof. exact info_scale_float_check. Qed.
 
+(** ** The solver ([theories/ScaleSolveFloat.v]).  [Sc e a a']: [a'] is [a] scaled by [2^e], exactly.  [rmb], [solveb]:
+    decidable range checkers over the unscaled computation (every operand that meets a scaled value at most [2^500] in
+    magnitude, every product and quotient zero or not below [2^max(-1021, -1021-e)]; [|e| <= 500], which contains the
+    units 2^-200 ... 2^150 the correspondence check uses).  [stop'] is the stop predicate in the new unit (both
+    "never", or thresholds [r] and [r * c]: [stop_at_corr]). *)
+Theorem C12_binary64_regret_matching_ignores_the_unit :
+  forall (e : Z) (p : @params FNum) (row row' : list float),
+  (-500 <= e <= 500)%Z -> nosoftmax p ->
+  Forall2 (Sc e) row row' -> rmb row = true ->
+  @regret_match FNum p row' = @regret_match FNum p row.
+Proof. exact regret_match_scale. Qed.
+
+Theorem C12_binary64_solve_scales_exactly :
+  forall (c : float) (e : Z) (g : @game FNum) (m : method)
+    (draw : @oracle FNum) (p : @params FNum) (budget : nat) (stop stop' : float -> bool),
+  IsPow2 c e -> (-500 <= e <= 500)%Z -> m <> External -> nosoftmax p ->
+  (forall x x', Sc e x x' -> stop' x' = stop x) ->
+  solveb e g (msampled m) draw p stop budget 1%N (@init_state FNum g) = true ->
+  @solve_single FNum (scale_game c g) m draw p budget stop' =
+  (fst (fst (@solve_single FNum g m draw p budget stop)),
+   scale_regs c (snd (fst (@solve_single FNum g m draw p budget stop))),
+   snd (@solve_single FNum g m draw p budget stop)).
+Proof. exact solve_single_scale_eq. Qed.
+
+Theorem C12_binary64_thresholds_correspond : forall (e : Z) (r r' : float), Sc e r r' ->
+  forall x x' : float, Sc e x x' -> @stop_at FNum r' x' = @stop_at FNum r x.
+Proof. exact stop_at_corr. Qed.
+
+(** non-vacuity: the example game in the unit 2^-200, ten iterations, hypotheses discharged by the checker; and a
+    unit (2^-900 * 2^-200) in which the checker refuses and the strategies really differ *)
+Example C12_binary64_solve_scales_example :
+  @solve_single FNum (scale_game c200 exs_g) Full exs_draw (@p_vanilla FNum) 10 (fun _ => false) =
+  (fst (fst (@solve_single FNum exs_g Full exs_draw (@p_vanilla FNum) 10 (fun _ => false))),
+   scale_regs c200 (snd (fst (@solve_single FNum exs_g Full exs_draw (@p_vanilla FNum) 10 (fun _ => false)))),
+   snd (@solve_single FNum exs_g Full exs_draw (@p_vanilla FNum) 10 (fun _ => false))).
+Proof. exact exs_scale_thm. Qed.
+
+Example C12_binary64_solve_scaling_fails_out_of_range :
+  solveb (-200) (scale_game (pow2 (-900)) exs_g) false exs_draw (@p_vanilla FNum) (fun _ => false) 10 1%N
+         (@init_state FNum exs_g) = false /\
+  fst (fst (@solve_single FNum (scale_game c200 (scale_game (pow2 (-900)) exs_g)) Full exs_draw
+                          (@p_vanilla FNum) 10 (fun _ => false))) <>
+  fst (fst (@solve_single FNum (scale_game (pow2 (-900)) exs_g) Full exs_draw
+                          (@p_vanilla FNum) 10 (fun _ => false))).
+Proof. exact exs_scale_refused. Qed.
+
 Print Assumptions C12_binary64_power_of_two.
 Print Assumptions C12_binary64_rounding_commutes.
 Print Assumptions C12_binary64_add_commutes.
 Print Assumptions C12_binary64_mul_commutes.
 Print Assumptions C12_binary64_utility_scales_exactly.
 Print Assumptions C12_binary64_reported_numbers_scale_exactly.
+Print Assumptions C12_binary64_regret_matching_ignores_the_unit.
+Print Assumptions C12_binary64_solve_scales_exactly.
+Print Assumptions C12_binary64_thresholds_correspond.
+Print Assumptions C12_binary64_solve_scales_example.
+Print Assumptions C12_binary64_solve_scaling_fails_out_of_range.
